@@ -1,5 +1,6 @@
 mod c05;
 mod c15;
+mod c17;
 mod c19;
 mod goscope;
 mod probe;
@@ -17,6 +18,7 @@ fn main() {
     match argv[1].as_str() {
         "c05" => c05::main(&args),
         "c15" => c15::main(&args),
+        "c17" => c17::main(&args),
         "c19" => c19::main(&args),
         "probe" => probe::main(&args),
         other => {
